@@ -432,6 +432,16 @@ def stamp_override():
     }
 
 
+def stamp_static():
+    """as stamp_override, but the checksummed target loses its rule for a while (it becomes a static source the user may edit)
+    and gets it back"""
+    p = stamp_override()
+    p['name'] = 'stamp_static'
+    p['doedits'] = ['mid.do']
+    p['bounds'] = (7, 3)
+    return p
+
+
 def stamp_toggle():
     """a target that is checksummed, then plain, then checksummed again with the old content"""
     return {
@@ -965,7 +975,7 @@ def crash_family(window=False, stamp_window=False):
     return out_
 
 
-FAMILY_DEEP = [stamp_override, override_rm_q, stamp_diamond, stamp_chain2, override3, subdirs_cwd, alias_prog, fail_kinds, ifcreate_link, symlink_prog, symlink_stamped, nodir_prog, always2, fail_diamond, override2, stamp_toggle, stamped_deep, ifcreate_deep, do_recreate, subdirs, fan_shared, fail_memo]
+FAMILY_DEEP = [stamp_static, stamp_override, override_rm_q, stamp_diamond, stamp_chain2, override3, subdirs_cwd, alias_prog, fail_kinds, ifcreate_link, symlink_prog, symlink_stamped, nodir_prog, always2, fail_diamond, override2, stamp_toggle, stamped_deep, ifcreate_deep, do_recreate, subdirs, fan_shared, fail_memo]
 
 
 def deep_programs():
